@@ -258,8 +258,8 @@ def evalCopier (p : Pending) (obsToks : List String) : String :=
   let pm := mergeX mlog
   let pi := mergeX ilog
   let eq := pm == pi
-  let hm := C14.holdsAll cfg evs mlog
-  let hi := C14.holdsAll cfg evs ilog
+  let hm := C14.holdsEvery cfg evs mlog
+  let hi := C14.holdsEvery cfg evs ilog
   let b (x : Bool) := if x then "1" else "0"
   let head := s!"RES {p.prop} {p.id} eq={b eq} hm={b hm} hi={b hi} miss={b (!badTok.isEmpty)} crash={b (obsToks.contains "crash")}"
   if eq && hi && hm && badTok.isEmpty then head else head ++ " | " ++ showLog pm ++ " | " ++ showLog pi
